@@ -7,7 +7,8 @@ Lemma pres_write s t s' : Inv s -> step s t AWrite = Ok s' -> Inv s'.
 Proof.
   intros I H. inv_step H. fold (T s t) in H.
   destruct (started (T s t)) eqn:Hst; cbn [negb] in H; [|discriminate].
-  destruct (excl (T s t)) eqn:Hex; cbn [negb] in H; [|discriminate].
+  destruct (excl (T s t)) eqn:Hex; cbn [negb orb] in H; [|discriminate].
+  destruct (lends_from s t) eqn:Hlf; [discriminate|].
   destruct (live s) eqn:Hl; cbn [negb] in H; [|discriminate].
   destruct (cleb _ _ && cleb _ _) eqn:Hc; cbn [negb] in H; [|discriminate].
   injection H as <-.
@@ -15,7 +16,7 @@ Proof.
   destruct (J1 s I Hl) as [Hne Hv].
   set (c' := tick (clk (T s t)) t).
   set (x' := {| clk := c'; pend := pend (T s t); refs := refs (T s t);
-                excl := true; mustfree := mustfree (T s t); started := true |}).
+                excl := true; mustfree := mustfree (T s t); started := true; lend := lend (T s t) |}).
   assert (HT : forall M W R l u, T {| msgs := M; Wc := W; Rc := R; live := l; ths := upd (ths s) t x' |} u
                          = if Nat.eqb u t then x' else T s u) by (intros; apply T_upd; auto).
   assert (Htot : total (upd (ths s) t x') = total (ths s)).
@@ -28,10 +29,12 @@ Proof.
   - intros u. rewrite HT. destruct (Nat.eqb_spec u t) as [->|Hne']; cbn [refs clk x'].
     + intros _. subst c'. pw.
     + intros Hu. specialize (Hall0 u Hne'). lia.
-  - intros _ u. destruct (J3 s I Hl u) as [H3|[[h [Hh H3]]|[h [Hm H3]]]]; [left; exact H3| |].
+  - intros _ u. destruct (J3 s I Hl u) as [H3|[[h [Hh H3]]|[[h [Hm H3]]|[h [Hb H3]]]]]; [left; exact H3| | |].
     + right. left. exists h. rewrite HT. destruct (Nat.eqb_spec h t) as [->|Hne']; cbn [refs clk x']; [|auto].
       split; [lia|]. specialize (Hcc u). lia.
     + exfalso. apply (mustfree_no_refs s h t I Hm). lia.
+    + right. right. right. exists h. rewrite HT. destruct (Nat.eqb_spec h t) as [->|Hne']; cbn [lend clk x']; [|auto].
+      split; [exact Hb|]. specialize (Hcc u). lia.
   - intros u. rewrite HT. destruct (Nat.eqb_spec u t) as [->|Hne']; cbn [mustfree clk pend x'];
       intros Hm; [destruct (J4 s I t Hm) as (_ & H0 & _)|destruct (J4 s I u Hm) as (_ & H0 & _)]; lia.
   - intros u. rewrite HT. destruct (Nat.eqb_spec u t) as [->|Hne']; cbn [excl refs clk x'].
@@ -45,6 +48,8 @@ Proof.
   - intros u. rewrite HT. destruct (Nat.eqb_spec u t) as [->|Hne']; cbn [started x']; [discriminate|].
     apply (J8 s I u).
   - intros _ H0. rewrite Htot in H0. lia.
+  - intros c0 p0. rewrite HT. intros El. exfalso.
+    destruct (Nat.eqb_spec c0 t) as [->|_]; cbn [lend x'] in El; exact (borrower_no_excl s _ p0 t I El Hex).
 Qed.
 
 (* ---------- AClone ---------- *)
@@ -58,7 +63,7 @@ Proof.
   destruct (J1 s I Hl) as [Hne Hv].
   set (c' := tick (clk (T s t)) t).
   set (x' := {| clk := c'; pend := join (pend (T s t)) (view (hdm s)); refs := S (refs (T s t));
-                excl := false; mustfree := mustfree (T s t); started := true |}).
+                excl := false; mustfree := mustfree (T s t); started := true; lend := lend (T s t) |}).
   set (m := {| val := S (val (hdm s)); view := view (hdm s); wt := t; we := get c' t |}).
   assert (HT : forall M W R l u, T {| msgs := M; Wc := W; Rc := R; live := l; ths := upd (ths s) t x' |} u
                          = if Nat.eqb u t then x' else T s u) by (intros; apply T_upd; auto).
@@ -71,10 +76,12 @@ Proof.
   - intros u. rewrite HT. destruct (Nat.eqb_spec u t) as [->|Hne']; cbn [refs clk x'].
     + intros _. eapply cle_trans; [apply (J2 s I t Hr) | exact Hcc].
     + apply (J2 s I u).
-  - intros _ u. cbn [view m]. destruct (J3 s I Hl u) as [H3|[[h [Hh H3]]|[h [Hm H3]]]]; [left; exact H3| |].
+  - intros _ u. cbn [view m]. destruct (J3 s I Hl u) as [H3|[[h [Hh H3]]|[[h [Hm H3]]|[h [Hb H3]]]]]; [left; exact H3| | |].
     + right. left. exists h. rewrite HT. destruct (Nat.eqb_spec h t) as [->|Hne']; cbn [refs clk x']; [|auto].
       split; [lia|]. specialize (Hcc u). lia.
     + exfalso. apply (mustfree_no_refs s h t I Hm). lia.
+    + right. right. right. exists h. rewrite HT. destruct (Nat.eqb_spec h t) as [->|Hne']; cbn [lend clk x']; [|auto].
+      split; [exact Hb|]. specialize (Hcc u). lia.
   - intros u. rewrite HT. destruct (Nat.eqb_spec u t) as [->|Hne']; cbn [mustfree clk pend x'];
       intros Hm; [destruct (J4 s I t Hm) as (_ & H0 & _)|destruct (J4 s I u Hm) as (_ & H0 & _)]; lia.
   - intros u. rewrite HT. destruct (Nat.eqb_spec u t) as [->|Hne']; cbn [excl x']; [discriminate|].
@@ -93,4 +100,5 @@ Proof.
   - intros u. rewrite HT. destruct (Nat.eqb_spec u t) as [->|Hne']; cbn [started x']; [discriminate|].
     apply (J8 s I u).
   - intros _ H0. lia.
+  - apply J10_upd; auto. intros (c0 & Hc0). cbn [refs excl x']. split; [lia|reflexivity].
 Qed.
